@@ -434,6 +434,8 @@ def assemble(unit, items=None, twin=False):
         out.add(GLUE_SCHEME, kind="glue")
     for sf in unit.get("specs", []):
         out.add_file(os.path.join(VERIF, "specs", sf), "spec")
+    for sf in unit.get("code_shims", []):
+        out.add_file(os.path.join(VERIF, "shim", sf), "shim")
     # functions grouped by impl header
     verify = list(unit.get("verify", []))
     assume = list(unit.get("assume", []))
